@@ -463,6 +463,35 @@ func TestC06_KeyGrid(t *testing.T) {
 	stats.ExhaustivePart("COSE_Key grid cells (decoder + follow-ups)", cnt/nsh)
 }
 
+// TestC06_HeaderGrid runs every decoder (and the follow-ups on success) over
+// the reference encodings of the single-parameter header cells of C13 (25
+// labels x 30 value kinds x both buckets x 7 contexts) and the same headers
+// inside a COSE_Signature of a COSE_Sign and inside a nested countersignature.
+func TestC06_HeaderGrid(t *testing.T) {
+	begin(t, "C06", "headergrid")
+	sh, nsh := gridShard()
+	n := 0
+	forEachSingleParamCell(false, func(hc c13Case) {
+		n++
+		if n%nsh != sh {
+			return
+		}
+		_, wire := c13Wire(hc.Ctx, hc.Prot, hc.Unprot)
+		wires := [][]byte{wire}
+		if hc.Ctx == "signature" {
+			// as the signer layer of a COSE_Sign and as a countersignature value
+			wires = append(wires, append([]byte{0xd8, 0x62, 0x84, 0x40, 0xa0, 0x41, 'p', 0x81}, wire...))
+			wires = append(wires, append(append([]byte{0xd2, 0x84, 0x40, 0xa1, 0x07}, wire...), 0x41, 'p', 0x41, 1))
+		}
+		for _, w := range wires {
+			stats.Eval()
+			c := mutCase{SeedKind: -1, Wire: w, Muts: []gen.Mutation{{Op: "header-grid", Path: hc.Cell}}}
+			judge(t, "c06", c, checkC06)
+		}
+	})
+	stats.ExhaustivePart("single-parameter header cells (all decoders + follow-ups)", n/nsh)
+}
+
 // FuzzC06 is the native coverage-guided target for all nine entry points.
 func FuzzC06(f *testing.F) {
 	cur = propCtx{Property: "C06", Part: "fuzz"}
